@@ -77,6 +77,8 @@ SumR(s, lo, hi) == IF lo > hi THEN 0 ELSE IF lo = hi THEN s[lo]
 Sum(s) == SumR(s, 1, Len(s))
 ByteLen(toks) == Sum([i \in 1..Len(toks) |-> Size(toks[i])])
 Map(f(_), s) == [i \in 1..Len(s) |-> f(s[i])]
+RECURSIVE SetToSeq(_)
+SetToSeq(S) == IF S = {} THEN <<>> ELSE LET x == CHOOSE y \in S : TRUE IN <<x>> \o SetToSeq(S \ {x})
 
 (***************************************************************************)
 (* The grammar (Appendix A).  Address maps are sequences of [b, a] entries *)
@@ -159,10 +161,14 @@ Enc(x) == CASE x.ty = "Envelope" -> EncEnv(x.v)
             [] x.ty = "WireAddrMapArray" -> EncNArr(x.v)
 
 Swap2(m) == <<m[2], m[1]>>
-(* alternative encodings of an envelope whose sender map has two entries *)
-EncAlts(x) == IF x.ty = "Envelope" /\ Len(x.v.from) = 2
-              THEN <<EncEnv([x.v EXCEPT !.from = Swap2(@)])>>
-              ELSE IF x.ty = "WireAddrMap" /\ Len(x.v) = 2 THEN <<EncNMap(Swap2(x.v))>> ELSE <<>>
+MapPerms(m) == IF Len(m) = 2 THEN {m, Swap2(m)} ELSE {m}
+MsgAlts(m) == IF m.t = "LCP" /\ Len(m.peers) >= 1 THEN { [m EXCEPT !.peers[1] = q] : q \in MapPerms(m.peers[1]) } ELSE {m}
+(* the other values that are the same Go value (maps are unordered) *)
+AltValues(x) == CASE x.ty = "Envelope" -> { [from |-> f, to |-> x.v.to, msg |-> mm] : f \in MapPerms(x.v.from), mm \in MsgAlts(x.v.msg) } \ {x.v}
+                  [] x.ty = "WireAddrMap" -> MapPerms(x.v) \ {x.v}
+                  [] x.ty = "WireAddrMapArray" -> IF Len(x.v) = 1 THEN { <<q>> : q \in MapPerms(x.v[1]) } \ {x.v} ELSE {}
+                  [] OTHER -> {}
+EncAlts(x) == SetToSeq({ Enc([ty |-> x.ty, v |-> y]) : y \in AltValues(x) })
 
 (***************************************************************************)
 (* Value domain                                                            *)
@@ -359,8 +365,6 @@ Grows(toks) ==
   UNION { IF toks[i].r \in {"arrlenW", "arrlenN"} /\ toks[i].n >= 1 /\ toks[i + 1].n = 1
           THEN { Mu(i, "grow", [NoTok EXCEPT !.n = n, !.l = 3], IF n > Limit THEN "error" ELSE "value", n > Limit, "participants") : n \in {Limit, Limit + 1} }
           ELSE {} : i \in 1..Len(toks) }
-RECURSIVE SetToSeq(_)
-SetToSeq(S) == IF S = {} THEN <<>> ELSE LET x == CHOOSE y \in S : TRUE IN <<x>> \o SetToSeq(S \ {x})
 Mutants(toks) == (UNION { TokMutants(i, toks[i]) : i \in 1..Len(toks) }) \cup Cuts(toks) \cup Grows(toks)
 CutSeq(toks) == [i \in 1..Len(toks) |-> Mu(i - 1, "cut", [NoTok EXCEPT !.s = "after"], "error", FALSE, "truncated")]
                 \o SelectSeq([i \in 1..Len(toks) |-> Mu(i, "cut", [NoTok EXCEPT !.s = "inside"], "error", FALSE, "truncated")],
